@@ -53,7 +53,7 @@ def parseGroup (s : String) : Option SGroup := do
     if it = "" then continue
     else if it = "T" then g := { g with startTls := true }
     else if it = "G" || it = "X" || it = "R" then g := { g with closes := true }
-    else if it = "B" then pure ()
+    else if it = "B" || it = "A" then pure ()
     else if it = "E" || it = "P" then g := { g with raws := g.raws ++ [none] }
     else match it.toList with
       | 'r' :: t => let b ← bytesOfHexChars t; g := { g with raws := g.raws ++ [some b] }
